@@ -2,6 +2,7 @@
 from engine import *
 from facts import strip_generics, callee_of
 import sym
+import scan
 import c04
 import c12
 
@@ -151,6 +152,7 @@ def r2_only_adds(ctx):
                 else:
                     ctx.ob("R2", "emit_bang:comment[check=on]:ok", rv[:2] == ("Ok", "Comment") and not stores, "otherwise the same Comment event is returned", config=cfg)
                     ok_shapes.add(comment_slice(r))
+        scan.comment_scan(ctx, "R2", F, cfg)
         ctx.ob("R2", "emit_bang:comment:same-payload", len(ok_shapes) == 1 and None not in ok_shapes, "the Comment payload does not depend on the option: %s" % ok_shapes, config=cfg)
         ctx.floor("R2", "Comment rows of emit_bang", rows, 2, config=cfg)
         # emit_text: the trim branch only right-trims with is_whitespace
